@@ -152,6 +152,18 @@ theorem span_sound_partial (ctx : Ctx) (name : String) (cs : List Expr) (σ : As
   simp only [buildErr] at hb
   exact (list_span ctx σ cs [] 0 hb hwl hns hvars (fun c h => hcons c (List.mem_append_left _ h))).2
 
+/-- **A satisfied Choose gets its placement.** A Choose that provides utility, has indicator 1
+under the assignment and a non-zero utility reports exactly one placement carrying its task
+name, its start and its end = start + duration (its allocation is described by `choose_exact`).
+The hypothesis `u ≠ 0` excludes exactly the class C20-F5. -/
+theorem choose_satisfied_placed (ctx : Ctx) (σ : Assign) (path : Path) (name strategy : String)
+    (parts : List Nat) (n start dur : Nat) (u : Int) (hu : u ≠ 0)
+    (hutil : (compileNode ctx path (.choose name strategy parts n start dur u)).pr.util = true)
+    (h1 : indVal σ (compileNode ctx path (.choose name strategy parts n start dur u)).pr = 1) :
+    ∃ allocs, (populateNode ctx σ path (.choose name strategy parts n start dur u)).placements
+      = [⟨name, start, (start : Int) + dur, allocs⟩] :=
+  choose_placed ctx σ path name strategy parts n start dur u hu hutil h1
+
 /-- Non-vacuity of `capacity_sound_partial` and `choose_exact`: an aligned tree (granularity 2, starts 0 and 2), a feasible
 assignment that places `A` and `B` on one slot each of the 2-slot partition `P0` during [2,4). -/
 def ctxOK : Ctx := ⟨[⟨0, "P0", 2⟩], [0], 0, 2⟩
